@@ -342,10 +342,10 @@ theorem renew_same_duration (casNow bd : Int) (old new : Cert)
   have e1 : tsub old.na old.nb = old.na - old.nb := by unfold tsub maxI64 minI64 at *; simp only []; omega
   have e2 : wrap64 (old.na - old.nb - bd) = old.na - old.nb - bd := wrap64_id _ (by unfold minI64 maxI64 at *; omega) (by unfold maxI64 at *; omega)
   have e : x509Renew casNow bd old =
-      if wrap64 (tsub old.na old.nb - bd) = 0 then .rej .lifetime0
+      if wrap64 (tsub old.na old.nb - bd) ≤ 0 then .rej .renewShort
       else .ok ⟨trunc (casNow + wrap64 (-1 * bd)), trunc (casNow + wrap64 (tsub old.na old.nb - bd))⟩ := rfl
   rw [e, e1, e2, wrap64_neg _ hbd hbd2] at h
-  by_cases hl : old.na - old.nb - bd = 0
+  by_cases hl : old.na - old.nb - bd ≤ 0
   · rw [if_pos hl] at h; cases h
   · rw [if_neg hl] at h; cases h
     simp only []
@@ -361,10 +361,10 @@ theorem renew_duration_within_second (casNow bd : Int) (old new : Cert)
   have e1 : tsub old.na old.nb = old.na - old.nb := by unfold tsub maxI64 minI64 at *; simp only []; omega
   have e2 : wrap64 (old.na - old.nb - bd) = old.na - old.nb - bd := wrap64_id _ (by unfold minI64 maxI64 at *; omega) (by unfold maxI64 at *; omega)
   have e : x509Renew casNow bd old =
-      if wrap64 (tsub old.na old.nb - bd) = 0 then .rej .lifetime0
+      if wrap64 (tsub old.na old.nb - bd) ≤ 0 then .rej .renewShort
       else .ok ⟨trunc (casNow + wrap64 (-1 * bd)), trunc (casNow + wrap64 (tsub old.na old.nb - bd))⟩ := rfl
   rw [e, e1, e2, wrap64_neg _ hbd hbd2] at h
-  by_cases hl : old.na - old.nb - bd = 0
+  by_cases hl : old.na - old.nb - bd ≤ 0
   · rw [if_pos hl] at h; cases h
   · rw [if_neg hl] at h; cases h
     simp only []
@@ -996,10 +996,12 @@ theorem ssh_no_crash_unguarded_refuted :
   intro h
   exact h d6now { va := { t := 61819977600 * second } } ⟨0#64, 0#64, userCert⟩ (by decide)
 
-/-- the three refusals of the repaired `renewSSH` / `rekeySSH` peeled off -/
+/-- the refusals of the repaired `renewSSH` / `rekeySSH` peeled off -/
 theorem sshRenewDates_cases (anow bd : Int) (old : SshCert) :
     (sshRenewDates anow bd old = .rej .noValidity) ∨ (sshRenewDates anow bd old = .rej .renewPeriod) ∨
+    (sshRenewDates anow bd old = .rej .renewShort) ∨
     (old.va.toNat ≤ old.vb.toNat ∧ old.vb.toNat - old.va.toNat ≤ 9223372036 ∧
+      bd < secsToDur ((old.vb.toNat : Int) - old.va.toNat) ∧
       sshRenewDates anow bd old =
         (castU64 (unixOf (anow + wrap64 (-1 * bd))) >>= fun va =>
          castU64 (unixOf (anow + wrap64 (secsToDur ((old.vb.toNat : Int) - old.va.toNat) - bd))) >>= fun vb =>
@@ -1009,9 +1011,11 @@ theorem sshRenewDates_cases (anow bd : Int) (old : SshCert) :
       else if old.vb < old.va then .rej .renewPeriod
       else if (old.vb - old.va).toNat > 9223372036 then .rej .renewPeriod
       else (castI64 (old.vb - old.va) >>= fun di =>
-        castU64 (unixOf (anow + wrap64 (-1 * bd))) >>= fun va =>
-        castU64 (unixOf (anow + wrap64 (secsToDur di - bd))) >>= fun vb =>
-        pure { old with va := va, vb := vb }) := rfl
+        if secsToDur di ≤ bd then .rej .renewShort
+        else
+          castU64 (unixOf (anow + wrap64 (-1 * bd))) >>= fun va =>
+          castU64 (unixOf (anow + wrap64 (secsToDur di - bd))) >>= fun vb =>
+          pure { old with va := va, vb := vb }) := rfl
   rw [e]
   by_cases h0 : old.va = 0#64 ∨ old.vb = 0#64
   · left; rw [if_pos h0]
@@ -1022,17 +1026,19 @@ theorem sshRenewDates_cases (anow bd : Int) (old : SshCert) :
   by_cases h2 : (old.vb - old.va).toNat > 9223372036
   · right; left; rw [if_pos h2]
   rw [if_neg h2]
-  right; right
   rw [BitVec.lt_def] at h1
   have hs : (old.vb - old.va).toNat = old.vb.toNat - old.va.toNat := by
     rw [BitVec.toNat_sub]
     have := old.va.isLt
     have := old.vb.isLt
     omega
-  refine ⟨by omega, by omega, ?_⟩
-  rw [castI64_bind, if_neg (by omega), hs]
-  have : ((old.vb.toNat - old.va.toNat : Nat) : Int) = (old.vb.toNat : Int) - old.va.toNat := by omega
-  rw [this]
+  have hc : ((old.vb.toNat - old.va.toNat : Nat) : Int) = (old.vb.toNat : Int) - old.va.toNat := by omega
+  rw [castI64_bind, if_neg (by omega), hs, hc]
+  by_cases h3 : secsToDur ((old.vb.toNat : Int) - old.va.toNat) ≤ bd
+  · right; right; left; rw [if_pos h3]
+  · right; right; right
+    rw [if_neg h3]
+    exact ⟨by omega, by omega, by omega, rfl⟩
 
 /-- inversion of the repaired `renewSSH` / `rekeySSH` date arithmetic -/
 theorem sshRenewDates_ok {anow bd : Int} {old c : SshCert} (hbd : 0 ≤ bd) (hbd2 : bd ≤ maxI64)
@@ -1041,7 +1047,8 @@ theorem sshRenewDates_ok {anow bd : Int} {old c : SshCert} (hbd : 0 ≤ bd) (hbd
     0 ≤ unixOf (anow - bd) ∧
     c = ⟨BitVec.ofInt 64 (unixOf (anow - bd)),
          BitVec.ofInt 64 (unixOf (anow + (((old.vb.toNat : Int) - old.va.toNat) * 1000000000 - bd))), old.ctype⟩ := by
-  rcases sshRenewDates_cases anow bd old with h0 | h0 | ⟨h1, h2, h3⟩
+  rcases sshRenewDates_cases anow bd old with h0 | h0 | h0 | ⟨h1, h2, _, h3⟩
+  · rw [h0] at h; cases h
   · rw [h0] at h; cases h
   · rw [h0] at h; cases h
   rw [h3] at h
@@ -1182,7 +1189,8 @@ theorem ssh_renew_no_crash (cl : Claimer) (unixNow anow pnow bd : Int) (allowExp
     (∀ c, renewGate unixNow allowExpired old = true → sshRenewDates anow bd old = .ok c →
       old.va.toNat < 9223372036854775808 ∧ old.vb.toNat < 9223372036854775808) := by
   have hnc : sshRenewDates anow bd old ≠ .crash := by
-    rcases sshRenewDates_cases anow bd old with h0 | h0 | ⟨h1, h2, h3⟩
+    rcases sshRenewDates_cases anow bd old with h0 | h0 | h0 | ⟨h1, h2, _, h3⟩
+    · rw [h0]; intro hh; cases hh
     · rw [h0]; intro hh; cases hh
     · rw [h0]; intro hh; cases hh
     rw [h3]
@@ -1602,5 +1610,112 @@ theorem admin_validate_default_above_max_before :
   have := h { max := some day, dflt := some (2 * day) } (by decide) (2 * day) day rfl rfl
   revert this
   decide
+
+/-! ### the lifetime handed to the CAS (RA / cloud / vault style issuance) -/
+
+
+/-- **cas_lifetime_bounds.** The lifetime `signX509` hands to the CAS is the validated length minus the backdate,
+    so a CAS that issues from its own clock — StepCAS in RA mode, CloudCAS, VaultCAS: `[t − backdate, t + lifetime]`
+    for whatever clock `t` — issues a certificate whose lifetime is the leaf's: inside `[min, max + backdate]` up to
+    the two seconds the truncations (leaf and CAS clock) can move, whatever notBefore / notAfter the request or the template asked for
+    (an explicit future notBefore does not stretch it). -/
+theorem cas_lifetime_bounds (cl : Claimer) (m : Mode) (now vnow : Int) (c : Cert) (so : SignOpts) (leaf : Cert)
+    (hv : cl.validate = true) (hbd : 0 ≤ so.backdate) (hbd2 : so.backdate ≤ maxI64)
+    (hmx : cl.maxTLS + so.backdate + 2 * second ≤ maxI64)
+    (h : x509Leaf cl m now vnow c so = .ok leaf) :
+    casLifetime leaf so.backdate + so.backdate = leaf.na - leaf.nb ∧
+    ∀ t : Int, cl.minTLS - 2 * second < trunc (t + casLifetime leaf so.backdate) - trunc (t - so.backdate) ∧
+               trunc (t + casLifetime leaf so.backdate) - trunc (t - so.backdate) < cl.maxTLS + so.backdate + 2 * second := by
+  have hc := claims_consistent cl hv
+  have hb := x509_bounds cl m now vnow c so leaf hv hbd hbd2 (by unfold second maxI64 at *; omega)
+    (by unfold second maxI64 at *; omega) h
+  have e : casLifetime leaf so.backdate = leaf.na - leaf.nb - so.backdate := by
+    unfold casLifetime tsub
+    unfold trunc second maxI64 minI64 at *
+    simp only []
+    omega
+  refine ⟨by omega, ?_⟩
+  intro t
+  rw [e]
+  unfold trunc second maxI64 at *
+  omega
+
+/-- … and when a lifetime-based CAS issues for an accepted leaf, that is the certificate -/
+theorem lifetimeCas_issue (casNow : Int) (leaf cert : Cert) (bd : Int) (hbd : 0 ≤ bd) (hbd2 : bd ≤ maxI64)
+    (h : lifetimeCasCreate casNow leaf bd = .ok cert) :
+    cert = ⟨trunc (casNow - bd), trunc (casNow + casLifetime leaf bd)⟩ ∧ casLifetime leaf bd ≠ 0 := by
+  unfold lifetimeCasCreate at h
+  simp only [] at h
+  rw [wrap64_neg _ hbd hbd2] at h
+  split at h
+  · cases h
+  · rename_i hl
+    split at h
+    · cases h
+      have : casNow + -bd = casNow - bd := by omega
+      rw [this]
+      exact ⟨rfl, hl⟩
+    · cases h
+
+example : lifetimeCasCreate (63900000000 * second + 7) ⟨63900021600 * second, 63900108000 * second⟩ (60 * second) =
+    .ok ⟨63899999940 * second, 63900086340 * second⟩ := by decide
+
+
+/-! ### renewed certificates and the backdate -/
+
+
+/-- **renew_expires_in_future** (full strength since fix 5596a41).  Every certificate a renewal or rekey issues
+    expires after the clock it was issued at — X.509 (`renewContext` + CAS) and SSH (`renewSSH`, `rekeySSH`) — whatever
+    the backdate and whatever the (well-formed: `notBefore ≤ notAfter`, whole seconds, < 292 years) certificate it
+    replaces: a certificate not longer than the backdate is refused. -/
+theorem renew_expires_in_future (casNow bd : Int) (old new : Cert)
+    (hold : trunc old.nb = old.nb ∧ trunc old.na = old.na) (hbds : trunc bd = bd)
+    (hbd : 0 ≤ bd) (hbd2 : bd ≤ maxI64) (hd : 0 ≤ old.na - old.nb) (hd2 : old.na - old.nb ≤ maxI64)
+    (h : x509Renew casNow bd old = .ok new) : casNow < new.na := by
+  have e1 : tsub old.na old.nb = old.na - old.nb := by unfold tsub maxI64 minI64 at *; simp only []; omega
+  have e2 : wrap64 (old.na - old.nb - bd) = old.na - old.nb - bd :=
+    wrap64_id _ (by unfold minI64 maxI64 at *; omega) (by unfold maxI64 at *; omega)
+  have e : x509Renew casNow bd old =
+      if wrap64 (tsub old.na old.nb - bd) ≤ 0 then .rej .renewShort
+      else .ok ⟨trunc (casNow + wrap64 (-1 * bd)), trunc (casNow + wrap64 (tsub old.na old.nb - bd))⟩ := rfl
+  rw [e, e1, e2, wrap64_neg _ hbd hbd2] at h
+  by_cases hl : old.na - old.nb - bd ≤ 0
+  · rw [if_pos hl] at h; cases h
+  · rw [if_neg hl] at h; cases h
+    simp only []
+    unfold trunc second at *
+    omega
+
+/-- the SSH half: the new `ValidBefore` lies after the authority's clock -/
+theorem ssh_renew_expires_in_future (anow bd : Int) (old c : SshCert)
+    (hbd : 0 ≤ bd) (hbd2 : bd ≤ maxI64) (hbds : trunc bd = bd) (hnow : unixOf anow < 4611686018427387904)
+    (h : sshRenewDates anow bd old = .ok c) : unixOf anow < (c.vb.toNat : Int) := by
+  rcases sshRenewDates_cases anow bd old with h0 | h0 | h0 | ⟨h1, h2, h3, _⟩
+  · rw [h0] at h; cases h
+  · rw [h0] at h; cases h
+  · rw [h0] at h; cases h
+  obtain ⟨_, _, k3, k4⟩ := sshRenewDates_ok hbd hbd2 h
+  rw [secsToDur_small _ (by omega) (by omega)] at h3
+  subst k4
+  simp only []
+  unfold unixOf trunc second unixToInternal maxI64 at *
+  rw [toNat_ofInt_small _ (by omega) (by omega)]
+  omega
+
+example : x509Renew (63900000000 * second) (600 * second) ⟨63899999000 * second, 63899999300 * second⟩ = .rej .renewShort := by
+  decide
+example : sshRenewDates d6now (600 * second) ⟨1764402000#64, 1764402300#64, hostCert⟩ = .rej .renewShort := by decide
+
+/-- **historic (D62, fixed by 5596a41).** Before the fix a certificate shorter than the configured backdate (5 minutes
+    under a 10-minute backdate; `AuthConfig.Validate` only asks `backdate ≥ 0`) was renewed into one whose `notAfter` /
+    `validBefore` was already in the past: `renewContext` computed `lifetime = duration − backdate < 0`, SoftCAS refused
+    only `lifetime == 0`; `renewSSH` had no validator (`rekeySSH` was stopped by `sshCertValidityValidator`). -/
+theorem renew_expired_when_shorter_than_backdate_historic :
+    (∃ new, x509RenewBefore (63900000000 * second) (600 * second) ⟨63899999000 * second, 63899999300 * second⟩ = .ok new ∧
+      new.na < 63900000000 * second) ∧
+    (∃ c, sshRenewDatesNoBackdateCheck d6now (600 * second) ⟨1764402000#64, 1764402300#64, hostCert⟩ = .ok c ∧
+      (c.vb.toNat : Int) < unixOf d6now) := by
+  refine ⟨⟨⟨63899999400 * second, 63899999700 * second⟩, by decide, by decide⟩,
+    ⟨⟨1764402600#64, 1764402900#64, hostCert⟩, by decide, by decide⟩⟩
 
 end Verif.Validity
